@@ -351,6 +351,16 @@ def proj_physical(l, op=""):
     return (ret, tuple(ev), l.start, l.size, tuple(l.window), l.allocs, l.views, l.crash)
 
 
+def proj_ownership(l, op=""):
+    """what the ownership properties (C03, C05, C06, C10) speak about: which elements are created, cloned
+    and destroyed by the call (as a multiset), which elements the buffer holds afterwards (as a set — their
+    order and the value returned are C01's business), its length, the views being consistent, a crash"""
+    ev = sorted(e for e in l.events if not e.startswith("Q"))
+    held = tuple(sorted(l.ids())) if l.window and len(l.window[0]) == 3 else len(l.window)
+    panicked = l.ret if l.ret.startswith("P:") else ""
+    return (tuple(ev), l.size, held, l.views, l.crash, panicked)
+
+
 def proj_alloc(l, op=""):
     """only what C17 speaks about: the number of heap allocations (and whether the call crashed)"""
     return (l.allocs, l.crash)
